@@ -154,5 +154,14 @@ func runIngest(c Case) (o evid.Outcome, err error) {
 		o.Class("special-cells")
 	}
 	o.Class("blocks=%d", (len(groups)+254)/255)
+	total := 0
+	for _, r := range rows {
+		for _, c := range r {
+			total += len(c)
+		}
+	}
+	if total > 1<<20 && len(groups) < 255 {
+		o.Class("one-block>1MiB")
+	}
 	return o, nil
 }
